@@ -27,6 +27,7 @@ RULE = ("S1 case = one sequence over {null, 1, 2, 3, rejected} of one group, run
         "finite boundary family (group length / window around 32767/32768); non-trivial = sequence "
         "longer than the window or containing a null/rejected row")
 ASSUMPTIONS = [
+    "S6: GroupBy-level rolling sum/mean/max/min/shift/diff on two interleaved groups of 127..300 rows with int8 group codes (small categorical, bool keys), windows 2 and around 127/128, every row compared with pandas on the group's subsequence",
     "S1 length <= 6 (quick) / 7 (thorough); S2 n <= 4 / 5 rows, window <= 3",
     "S1 values from {1,2,3} (all order patterns incl. ties), S2 values from the position table",
     "temporal tables hold ns values above 2**53 with odd nanoseconds (float detours are visible)",
